@@ -22,6 +22,8 @@ KIND_CODE = {"stddev": 1, "quantile": 2, "min": 3, "max": 4, "covariance": 5, "c
 PROBS = (0.0, 0.25, 0.5, 0.75, 1.0, 0.1)
 DYADIC_P = (0.0, 0.25, 0.5, 0.75, 1.0)
 TOL = 1e-9
+OFFSETS = (10 ** 6, 10 ** 8, 1700000000, 2 ** 40, -10 ** 9)
+OFFSET_KINDS = ("stddev", "quantile", "covariance", "corrcoef")
 EPOCH0 = 1577836800  # 2020-01-01T00:00:00, datetime facts are EPOCH0 + small second offsets
 
 
@@ -58,6 +60,16 @@ def gen_case(rng, kind):
     den = 1 if ftype != "float" else rng.choice([1, 2, 4])
     span = rng.choice([2, 4, 8])
     fact = [[rng.randint(-span, span) / den for _ in range(ncol)] for _ in range(N)]
+    # 'large offset' stream: facts whose per-cell mean is large compared with their spread (timestamps,
+    # balances, ids).  Every value offset + k*unit/den is exactly representable in float64, so the exact
+    # model / oracle give the true statistic.  The two-pass code itself rounds the per-cell mean to
+    # ulp(offset)/2, an absolute variance error of about n*ulp(offset)^2/4: negligible up to 1.7e9 with a unit
+    # spread; for 2^40 the spread unit is 2^10 so that the error stays far below the 1e-9 tolerance.
+    offset, unit = 0, 1
+    if kind in OFFSET_KINDS and rng.random() < 0.3:
+        offset = rng.choice(OFFSETS)
+        unit = 1024 if abs(offset) >= 2 ** 38 else 1
+        fact = [[float(offset) + x * unit for x in row] for row in fact]
     pm = rng.choice([0.0, 0.1, 0.25, 0.5])
     fvalid = [[rng.random() >= pm for _ in range(ncol)] for _ in range(N)]
     if kind in ("covariance", "corrcoef") and rng.random() < 0.3:
@@ -88,7 +100,7 @@ def gen_case(rng, kind):
         whidden = [rng.choice([float("nan"), 1e300, 0.0, 7.0]) for _ in range(N)]
     p = rng.choice(PROBS + (round(rng.random(), 3), rng.random()))
     case = {"kind": kind, "N": N, "exts": exts, "dims": dims, "dimdtype": rng.choice(["int64", "int64", "int8", "uint8", "int32"]),
-            "K": K, "ftype": ftype, "fform": fform, "fact": fact, "fvalid": fvalid, "fhidden": hidden,
+            "K": K, "ftype": ftype, "fform": fform, "offset": offset, "fact": fact, "fvalid": fvalid, "fhidden": hidden,
             "wkind": wkind, "w": w, "wvalid": wvalid, "whidden": whidden,
             "ign": rng.random() < 0.5, "p": p,
             "sentinel": rng.choice([0, 0, -7, 3]) if ftype != "float" else rng.choice([0, 0.0, -7.0, 2.5])}
@@ -429,7 +441,11 @@ def run(ctx):
                 "(cells with 0..4+ rows), facts = dyadic rationals k/{1,2,4} as float64 / int64 / datetime64[s], NaN-marked or "
                 "(values, validity) with garbage under False, one or 2-3 columns, weights none / array / (values, validity) from "
                 "{0.25,0.5,1,1.5,2,3,4} (zeros for stddev), p in {0,1/4,1/2,3/4,1,0.1,random}, both missing policies, both report "
-                "formats; a case is distinct by its whole input and non-trivial when some output cell is valid")
+                "formats; about 30 % of the stddev / quantile / covariance / corrcoef cases are 'large offset' cases: every fact is offset + "
+                "spread with offset in {1e6, 1e8, 1.7e9, 2^40, -1e9} (all inputs exactly representable; for 2^40 the spread unit is 2^10: "
+                "offset/spread-unit <= 2^31, because the two-pass code's own rounding of the cell mean costs about n*ulp(offset)^2/4 of "
+                "absolute variance error, which a unit spread at 2^40 would push above the 1e-9 tolerance); "
+                "a case is distinct by its whole input and non-trivial when some output cell is valid")
     ctx.trusted = list(core.STD_TRUSTED) + [
         "NumPy kernels modelled from their documentation, tied only by the correspondence: bincount, boolean-mask indexing, "
         "argsort (NaN last, insertion sort for n<=16), cumsum, digitize, diff, quantile/nanquantile(method=linear), cov, corrcoef, amin/amax",
@@ -456,6 +472,7 @@ def run(ctx):
     wrong = {}
     dist = {}
     feats = {}
+    offs = {}
     for i in range(n_inputs):
         for kind in KINDS:
             case = gen_case(ctx.rng, kind)
@@ -465,6 +482,9 @@ def run(ctx):
             dist[key] = dist.get(key, 0) + 1
             for f in features(case, res):
                 feats[f] = feats.get(f, 0) + 1
+            if case.get("offset"):
+                ok = "%s offset %d%s" % (kind, case["offset"], "" if case["exts"] else " (zero-dimension cube)")
+                offs[ok] = offs.get(ok, 0) + 1
             for sig, text in bad:
                 wrong.setdefault(sig, []).append((case, text))
             if not res["exc"]:
@@ -476,6 +496,8 @@ def run(ctx):
     ctx.evaluations = n_inputs * len(KINDS)
     ctx.coverage["input_distribution"] = {" ".join(map(str, k)): v for k, v in sorted(dist.items())}
     ctx.coverage["situations"] = feats
+    ctx.coverage["large_offset_cases"] = dict(sorted(offs.items()))
+    ctx.coverage["large_offset_total"] = sum(offs.values())
     ctx.samples = [{k: c[k] for k in ("kind", "exts", "dims", "fact", "fvalid", "wkind", "w", "wvalid", "ign", "p")} for c in cases[:3]]
 
     res = core.run_cases("c18", "From Catii Require Import Cube.XStats Cube.XStatsCheck.", lits, "case_t", "check_case",
